@@ -95,8 +95,12 @@ def entry_text(n: Node, sp: Spelling) -> str:
         clauses.append(("occurs", f"{kw('OCCURS')} {n.odo[0]} {kw('TO')} {n.odo[1]}" + (f" {kw('TIMES')}" if sp.times else "")
                         + f" {kw('DEPENDING')}" + (f" {kw('ON')}" if sp.on_word else "") + f" {n.odo[2]}"))
     if not n.is_group and n.redefines is None:
-        if sp.extra == "value":
-            lit = "ZERO" if (n.pic or "").upper().lstrip("S").startswith("9") else ("'A. B'", "'COMP'", "'COMP-3 X'", '"BINARY"', "'IT''S'", '"SAY ""HI"""', "'X''Y Z'")[(n.level + len(n.name or "")) % 7]
+        if sp.extra in ("value", "value-dot"):
+            # (no blanks inside the literals: a rewrite may break a line between any two words, and a literal cannot be broken;
+            # 'A. B' -- a period followed by a blank inside the literal -- only in the kind of its own: finding D46)
+            lits = ("'A.B'", "'COMP'", "'COMP-3'", '"BINARY"', "'IT''S'", '"A""B"', "'X''YZ'")
+            lit = "ZERO" if (n.pic or "").upper().lstrip("S").startswith("9") else \
+                ("'A. B'" if sp.extra == "value-dot" else lits[(n.level + len(n.name or "")) % 7])
             clauses.append(("extra", f"{kw('VALUE')} {lit}"))
         elif sp.extra in ("just", "just-last") and (n.pic or "").upper().startswith("X"):
             clauses.append(("extra", f"{kw('JUSTIFIED')} {kw('RIGHT')}" if sp.extra == "just" else kw("JUST")))
@@ -243,6 +247,9 @@ def apply_kind(kind: str, sp: Spelling, rng, levels: list[int]) -> None:
         sp.lower = "picture"
     elif kind == "value-clause":
         sp.extra = "value"
+    elif kind == "value-literal-period-blank":
+        sp.extra = "value-dot"
+        sp.order = "extra-first"
     elif kind == "justified-right":
         sp.extra = "just"
     elif kind == "justified-as-last-clause":
@@ -276,6 +283,7 @@ KNOWN_KINDS = {
     "indexed-by-without-key": "respell:indexed-by-without-key",            # D27
     "continuation-line": "respell:continuation-line",                      # D28
     "blank-when-zeros": "respell:blank-when-zeros",                        # D42 (test-pinned)
+    "value-literal-period-blank": "respell:value-literal-period-blank",    # D46
     "indexed-by-before-picture": "respell:indexed-by-before-picture",      # D33
     "lowercase-keywords": "respell:lowercase-keywords",                    # D20
     "lowercase-picture": "respell:lowercase-picture",                      # D20
@@ -364,7 +372,7 @@ def explore(ck: Check, n_trees: int, n_compositions: int) -> None:
             sp = Spelling()
             for k in kinds:
                 apply_kind(k, sp, rng, levels)
-            if sp.indexed_by and (sp.order == "occurs-first" or sp.extra == "value"):
+            if sp.indexed_by and (sp.order == "occurs-first" or sp.extra in ("value", "value-dot")):
                 # this composition IS that known shape: a clause (PICTURE, or VALUE with its literal) written after INDEXED BY
                 kinds = kinds + ["indexed-by-before-picture"]
             text, _ = render_spelled(root, sp)
